@@ -225,6 +225,16 @@ func runJob(bin string, j *job, timeout time.Duration, extraEnv ...string) []run
 		}
 	}
 	err := cmd.Wait()
+	// a worker that died (or was killed) leaves its world directories behind
+	if pid := cmd.Process.Pid; pid > 0 {
+		for _, pat := range []string{"verif-%d-*", "verif-l2-%d-*", "verif-c14-%d-*", "verif-c14c-%d-*", "verif-c18-%d-*", "verif-c19-%d-*"} {
+			if left, e := filepath.Glob(filepath.Join("/dev/shm", fmt.Sprintf(pat, pid))); e == nil {
+				for _, d := range left {
+					_ = os.RemoveAll(d)
+				}
+			}
+		}
+	}
 	if errBuf.big {
 		// race-instrumented worker: attach the detector's reports to the seeds they occurred in
 		bySeed := parseRaces(errBuf.String())
